@@ -69,7 +69,8 @@ def gen_histories(rep, rd, n, only_hash=False):
             break
     rep.add_tlc(stats_of(res))
     # histories around the one operation that edits its target (IoContract.simplify()) on contracts stored unsimplified
-    return [{"focus": False, "hist": h} for h in hs] + fs + simulate(rep, rd, "Session_hash.cfg", n // 4, 32, "hash")
+    return ([{"focus": False, "hist": h} for h in hs] + fs + simulate(rep, rd, "Session_hash.cfg", n // 4, 32, "hash")
+            + simulate(rep, rd, "Session_terms.cfg", n // 4, 32, "terms"))     # the term-level API on lists whose coefficients can cancel
 
 
 def run_case(case):
